@@ -23,8 +23,13 @@ import (
 )
 
 type Op struct {
-	Kind string      `json:"kind"` // bulk | maintain | seal | crash | kill | restart | snap | tamper
+	Kind string      `json:"kind"` // bulk | maintain | seal | crash | kill | restart | snap | tamper | shrink | overlap
 	Docs []model.Doc `json:"docs,omitempty"`
+	// overlap: Docs go into a fraction whose background sealing is held at Point (Arg) while
+	// Docs2 fill the next fraction, which is sealed completely; then the process is killed
+	// (the older fraction is still unsealed on disk, the newer one sealed), restarted, and
+	// the size limit is lowered so that exactly one non-empty fraction has to go
+	Docs2 []model.Doc `json:"docs2,omitempty"`
 	// crash: arm Point (N-th hit) and run Via (maintain | seal | bulk+maintain)
 	Point string `json:"point,omitempty"`
 	Arg   string `json:"arg,omitempty"`
@@ -51,6 +56,12 @@ var points = []pt{
 	{"active.suicide.begin", ""}, {"active.suicide.meta_removed", ""}, {"active.suicide.docs_removed", ""},
 	{"fraccache.tmp_created", ""}, {"fraccache.written", ""}, {"fraccache.renamed", ""},
 	{"pfrac.seal.before_release", ""}, {"active.release.meta_removed", ""},
+}
+
+// where the background sealing of the older fraction is held in an overlap operation
+var holdPoints = []pt{
+	{"seal.section", "info"}, {"seal.sdocs_tmp_created", ""}, {"seal.sdocs_renamed", ""}, {"seal.index_tmp_created", ""},
+	{"seal.section", "lids"}, {"seal.index_written", ""},
 }
 
 // the lowered-limit phase is the only way to reach the deletion of an active fraction
@@ -114,7 +125,12 @@ func genCase(t *rapid.T) Case {
 		case k < 11:
 			c.Ops = append(c.Ops, Op{Kind: "maintain"})
 		case k < 12:
-			c.Ops = append(c.Ops, Op{Kind: "seal"})
+			if rapid.Bool().Draw(t, "overlap") {
+				hp := rapid.SampledFrom(holdPoints).Draw(t, "hold")
+				c.Ops = append(c.Ops, Op{Kind: "overlap", Docs: genDocs(t, &seq), Docs2: genDocs(t, &seq), Point: hp.name, Arg: hp.arg})
+			} else {
+				c.Ops = append(c.Ops, Op{Kind: "seal"})
+			}
 		case k < 15:
 			p := rapid.SampledFrom(points).Draw(t, "point")
 			c.Ops = append(c.Ops, Op{Kind: "crash", Docs: genDocs(t, &seq), Point: p.name, Arg: p.arg, N: rapid.IntRange(1, 2).Draw(t, "nth")})
@@ -392,6 +408,73 @@ func runCase(c Case) (evid.Result, error) {
 			if fileKinds(p.Crash.Files) != fileKinds(before.Files) {
 				oddFileSet = true
 			}
+		case "overlap":
+			tainted := crashes > 0
+			if err := bulk(op.Docs); err != nil {
+				return res, err
+			}
+			older := w.order[len(w.order)-1]
+			if _, err := p.Do(harness.PCmd{Op: "delay", Point: op.Point, Arg: op.Arg, DelayMs: 20000}); err != nil {
+				return res, evid.Failf("died-idle", "exit %d", p.Exit)
+			}
+			if r, err := p.Do(harness.PCmd{Op: "sealasync"}); err != nil || !r.OK {
+				return res, evid.Failf("died-in-seal", "%s: background sealing did not rotate: exit %d %s", step, p.Exit, p.StderrTail())
+			}
+			if err := bulk(op.Docs2); err != nil {
+				return res, err
+			}
+			if _, err := p.Do(harness.PCmd{Op: "seal"}); err != nil {
+				return res, evid.Failf("died-in-seal", "%s: exit %d %s", step, p.Exit, p.StderrTail())
+			}
+			p.Kill() // no retention is in progress: this end does not excuse a later wrong order
+			if err := up(step + " restart (older fraction unsealed, newer sealed)"); err != nil {
+				return res, err
+			}
+			res.Labels = append(res.Labels, "overlapping-seals-interrupted")
+			if tainted {
+				continue
+			}
+			fr, err := p.Do(harness.PCmd{Op: "fracs"})
+			if err != nil {
+				return res, evid.Failf("died-idle", "exit %d", p.Exit)
+			}
+			var total, olderSum uint64
+			size := map[string]uint64{}
+			for _, f := range fr.Fracs {
+				total += f.Size
+				size[f.Name] = f.Size
+			}
+			for _, name := range w.order {
+				if name == older {
+					break
+				}
+				olderSum += size[name]
+			}
+			if size[older] == 0 || total-olderSum < 2 {
+				continue
+			}
+			if err := p.StopGraceful(); err != nil {
+				return res, evid.Failf("stop-failed", "%s: %v", step, err)
+			}
+			lower := c.Opts
+			lower.TotalSize = total - olderSum - 1 // everything older than the held fraction and exactly one more has to go
+			if err := upWith(step+" (size limit just below what is stored)", lower); err != nil {
+				return res, err
+			}
+			if _, err := p.Do(harness.PCmd{Op: "maintain"}); err != nil {
+				return res, evid.Failf("died-in-maintenance", "%s: exit %d %s", step, p.Exit, p.StderrTail())
+			}
+			if err := verify(step + " retention"); err != nil {
+				return res, err
+			}
+			if err := checkPrefix(step + " retention after interrupted overlapping seals"); err != nil {
+				return res, err
+			}
+			res.Labels = append(res.Labels, "retention-after-overlap")
+			// back to the generated configuration for the rest of the history (with the lowered
+			// limit a later pass could delete the fraction being written, after which the
+			// process is unusable by design); nothing is in progress, so this end is harmless
+			p.Kill()
 		case "shrink":
 			if err := bulk(op.Docs); err != nil {
 				return res, err
